@@ -1073,6 +1073,9 @@ def canaries_c04(programs):
 
 # ---------------------------------------------------------------------------------
 # C06
+DBG_METHODS = ["crate::m::fmt_a", "crate::m::fmt_b"]
+
+
 def dbg_type_meta(name, named_field, form):
     """spelled type-/variant-level Debug meta (or None)"""
     ps = []
@@ -1095,6 +1098,17 @@ def dbg_field(name, ty, a, form, struct_style):
     """a: 'n' plain, 'i' ignore, 'k' renamed key (struct style only)"""
     sem = {"ignore": a in "ib", "key": None, "method": None}
     attrs = []
+    if a == "m":
+        # custom method on a u8 field (caller sets the field type)
+        m = DBG_METHODS[form % 2]
+        sem["method"] = m
+        attrs.append("Debug(%s)" % spell_param("method", m, form))
+        return Field(name, "u8", attrs=attrs, debug=sem)
+    if a == "M" and struct_style:
+        m = DBG_METHODS[form % 2]
+        sem["method"] = m; sem["key"] = "mk%d" % (form % 5)
+        attrs.append("Debug(%s, %s)" % (spell_param("method", m, form), ["name = %s", "rename(%s)"][form % 2] % sem["key"]))
+        return Field(name, "u8", attrs=attrs, debug=sem)
     if a == "b" and struct_style:
         # ignored AND renamed: ignore wins, nothing is shown
         attrs.append(["Debug(ignore, name = zz)", "Debug(rename(zz), ignore)", 'Debug(name = "zz", ignore = true)'][form % 3])
@@ -1161,8 +1175,8 @@ def c06(tier, seed):
                         vnf = None
                     struct_style = (kind == "named") if vnf is None else vnf
                     tshown = None if tn == "default" else tn
-                    if vn is False and tshown is None:
-                        vn = True      # no name shown in an enum: unit rejected, struct style = debug_map form, tuple style does not compile on the pinned tree (C01 defect: `f.debug_tuple()`)
+                    if vn is False and tshown is None and not (struct_style and m > 0):
+                        vn = True      # no name shown in an enum (struct style with fields = debug_map form is fine): unit rejected, struct style = debug_map form, tuple style does not compile on the pinned tree (C01 defect: `f.debug_tuple()`)
                     fs = []
                     for j in range(m):
                         a = ["n", "i", "k", "n"][(form + vi + j) % 4]
@@ -1187,6 +1201,21 @@ def canaries_debug(programs):
         Q = P.clone(); Q.pid = P.pid + "_canary"; Q.canary_of = P.pid
         Q.variants[0].fields[-1].sem["debug"] = dict(Q.variants[0].fields[-1].sem["debug"], ignore=True)
         Q.note = "CANARY (oracle omits the last field) of " + P.pid
+        out.append(Q)
+    ms = [p for p in programs if p.kind == "struct" and any(f.s("debug", "method") for f in p.variants[0].fields)]
+    for P in ms[:1] + [p for p in ms if p.s("debug", "name") is False][:1]:
+        Q = P.clone(); Q.pid = P.pid + "_canary"; Q.canary_of = P.pid
+        for f in Q.variants[0].fields:
+            if f.s("debug", "method"):
+                f.sem["debug"] = dict(f.sem["debug"], method="crate::m::fmt_b" if f.s("debug", "method").endswith("fmt_a") else "crate::m::fmt_a")
+                break
+        Q.note = "CANARY (oracle expects the other Debug method) of " + P.pid
+        out.append(Q)
+    for P in [p for p in ms if p.s("debug", "name") is False][1:2]:
+        Q = P.clone(); Q.pid = P.pid + "_canary"; Q.canary_of = P.pid
+        f = Q.variants[0].fields[0]
+        f.sem["debug"] = dict(f.sem["debug"], key="wrongkey")
+        Q.note = "CANARY (oracle expects another map key) of " + P.pid
         out.append(Q)
     es = [p for p in programs if p.kind == "enum" and len(p.variants) >= 2]
     for P in es[4:5]:
@@ -1783,6 +1812,28 @@ def wide(prop):
             variants.append(Variant("V%d" % vi, kind, fs))
         out.append(clone_program(pid(), "enum", "E", variants, generics, False, "wide enum 6 variants", 1))
     if prop == "C06":
+        # custom-method fields and the nameless struct-style (debug_map) form: inside Verus through the hoisting transform
+        for shape in ("named", "tuple"):
+            for tn, nf in (("default", None), (False, None), ("Renamed", None), ("default", shape != "named")):
+                struct_style = (shape == "named") if nf is None else nf
+                for assign in (("m",), ("n", "m"), ("m", "n", "m"), ("M", "n") if struct_style else ("m", "i", "n"), ("n", "k", "m") if struct_style else ("n", "m", "m")):
+                    generics = []
+                    fields = []
+                    for i, a in enumerate(assign):
+                        f = dbg_field(LONG[i] if shape == "named" else None, "T%d" % len(generics), a, k[0] + i, struct_style)
+                        if f.ty.startswith("T"):
+                            generics.append(f.ty)
+                        fields.append(f)
+                    out.append(Program(pid(), "struct", "S", [Variant(None, shape, fields)], [dbg_type_meta(tn, nf, k[0]) or "Debug"], generics=generics,
+                                       inst={g: "u8" for g in generics}, focus={"Debug"},
+                                       note="method/map struct %s name=%s named_field=%s fields=%s" % (shape, tn, nf, "".join(assign)), debug={"name": tn, "named_field": nf}))
+        for tn in ("default", True):
+            vs = [Variant("V0", "tuple", [dbg_field(None, "T0", "n", 0, False), dbg_field(None, "T0", "m", 1, False)], debug={"name": True, "named_field": None}),
+                  Variant("V1", "named", [dbg_field("a", "T0", "m", 2, True), dbg_field("b", "T0", "k", 3, True)], debug={"name": True, "named_field": None}),
+                  Variant("V2", "named", [dbg_field("x", "T0", "M", 5, True)], debug={"name": "Q", "named_field": None}, attrs=["Debug(name = Q)"]),
+                  Variant("V3", "unit", [], debug={"name": True, "named_field": None})]
+            out.append(Program(pid(), "enum", "E", vs, [dbg_type_meta(tn, None, 0) or "Debug"], generics=["T0"], inst={"T0": "u8"}, focus={"Debug"},
+                               note="method enum name=%s" % tn, debug={"name": tn, "named_field": None}))
         for assign in (("b",), ("n", "b"), ("b", "n"), ("k", "b", "n"), ("n", "n", "b")):
             generics = ["T%d" % i for i in range(len(assign))]
             fields = [dbg_field(LONG[i], generics[i], a, k[0] + i, True) for i, a in enumerate(assign)]
